@@ -173,6 +173,15 @@ def oracle_similarity(rng, n, R):
         table = losses_table(eps, ks, param)
         for name, (f, tol, kind) in table.items():
             base = {"fn": name, "x": spec(x), "y": spec(y), "mask": spec(m), "eps": eps, "ks": ks, "param": param}
+            try:
+                similarity_checks(rng, R, name, f, tol, kind, base, x, y, m, shape, form, eps, ks, param)
+            except Exception as e:  # noqa  (a call outside the guarded ones raised)
+                R.fail(f"C16:{name}:raises", f"raises {type(e).__name__}: {str(e)[:140]}", **base)
+
+
+def similarity_checks(rng, R, name, f, tol, kind, base, x, y, m, shape, form, eps, ks, param):
+    if True:
+        if True:
             # ---- identical inputs -> zero / documented minimum
             R.tick("identical")
             for mm, tag in ((None, "nomask"), (m, "mask")):
@@ -326,6 +335,22 @@ def oracle_overlap(rng, n, R):
             a0 = R.guard(kt, base, lambda: L.tversky_index(p, t, weight=ww, epsilon=eps, reduction="none"))
             if a is not None and a0 is not None and not close(a, a0, 1e-6):
                 R.fail("C16:tversky_index:default-not-half", "default alpha, beta are not 1/2", **base)
+            # defining formulas, evaluated independently
+            wf = torch.ones_like(soft_p) if ww is None else ww.expand(shape)
+            dims = tuple(range(2, len(shape)))
+            I_ = (soft_p * soft_t * wf).sum(dims)
+            P_ = (soft_p * soft_p * wf).sum(dims)
+            T_ = (soft_t * soft_t * wf).sum(dims)
+            FP_ = (soft_p * (1 - soft_t) * wf).sum(dims)
+            FN_ = ((1 - soft_p) * soft_t * wf).sum(dims)
+            a = R.guard("C16:dice_score:raises", base, lambda: L.dice_score(soft_p, soft_t, weight=ww, epsilon=eps, reduction="none"))
+            if a is not None and not close(a, (2 * I_ + eps) / (P_ + T_ + eps), 1e-5):
+                R.fail("C16:dice_score:formula", "dice_score differs from (2<p,t> + eps) / (<p,p> + <t,t> + eps)", **base)
+            for al_, be_ in ((1.0, 0.0), (0.3, 0.7)):
+                a = R.guard(kt, base, lambda: L.tversky_index(soft_p, soft_t, weight=ww, alpha=al_, beta=be_, epsilon=eps, reduction="none"))
+                if a is not None and not close(a, (I_ + eps) / (I_ + eps + al_ * FP_ + be_ * FN_), 1e-5):
+                    R.fail("C16:tversky_index:formula",
+                           f"tversky_index(alpha={al_}, beta={be_}) differs from (TP + eps) / (TP + eps + alpha FP + beta FN)", **base)
             # reductions
             for fname in ("dice_score", "dice_loss", "tversky_index"):
                 fn = getattr(L, fname)
@@ -347,6 +372,40 @@ def oracle_overlap(rng, n, R):
                 pass
             if tl is not None and ti is not None and not close(tl, 1 - ti, 1e-6):
                 R.fail("C16:tversky_loss:not-one-minus-index", "tversky_loss != 1 - tversky_index", **base)
+
+
+def oracle_wlcc_masks(rng, n, R):
+    """the three masks of wlcc_loss: defaulting rules"""
+    for it in range(n):
+        D, N, C, sp = rshape(rng)
+        shape = [N, C] + sp
+        x, y = rnd(rng, shape), rnd(rng, shape)
+        ks = rng.choice([k for k in (3, 5) if k <= min(sp)])
+        eps = rng.choice([1e-3, 0.25])
+        sm = rnd(rng, mask_shape(MASK_FORMS[it % 4], N, C, sp), 0.1, 1.0)
+        tm = rnd(rng, mask_shape(MASK_FORMS[(it // 4) % 4], N, C, sp), 0.1, 1.0)
+        base = {"x": spec(x), "y": spec(y), "source_mask": spec(sm), "target_mask": spec(tm), "ks": ks, "eps": eps}
+        R.tick("wlcc-masks")
+        try:
+            for r in ("none", "mean"):
+                a = L.wlcc_loss(x, y, source_mask=sm, target_mask=tm, kernel_size=ks, epsilon=eps, reduction=r)
+                b = L.wlcc_loss(x, y, mask=sm * tm, source_mask=sm, target_mask=tm, kernel_size=ks, epsilon=eps, reduction=r)
+                if not close(a, b, 2e-5):
+                    R.fail("C16:wlcc_loss:mask-default", "mask=None with both source_mask and target_mask is not mask=source_mask*target_mask", **base)
+                a = L.wlcc_loss(x, y, mask=sm, kernel_size=ks, epsilon=eps, reduction=r)
+                b = L.wlcc_loss(x, y, mask=sm, source_mask=sm, target_mask=sm, kernel_size=ks, epsilon=eps, reduction=r)
+                if not close(a, b, 2e-5):
+                    R.fail("C16:wlcc_loss:mask-default", "mask alone is not used as source_mask and target_mask", **base)
+                a = L.wlcc_loss(x, y, source_mask=sm, target_mask=tm, kernel_size=ks, epsilon=eps, reduction=r)
+                b = L.wlcc_loss(y, x, source_mask=tm, target_mask=sm, kernel_size=ks, epsilon=eps, reduction=r)
+                if not close(a, b, 2e-5):
+                    R.fail("C16:wlcc_loss:asymmetric", "exchanging (source, source_mask) and (target, target_mask) changes the loss", **base)
+            a = L.wlcc_loss(x, y, kernel_size=ks, epsilon=eps, reduction="none")
+            b = L.lcc_loss(x, y, kernel_size=ks, epsilon=eps, reduction="none")
+            if not close(a, b, 2e-5):
+                R.fail("C16:wlcc_loss:no-mask-not-lcc", "wlcc_loss without masks differs from lcc_loss", **base)
+        except Exception as e:  # noqa
+            R.fail("C16:wlcc_loss:raises", f"raises {type(e).__name__}: {str(e)[:140]}", **base)
 
 
 def oracle_mi(rng, n, R):
@@ -434,6 +493,7 @@ def oracle(p):
     R = Rec()
     oracle_similarity(rng, n, R)
     oracle_overlap(rng, n, R)
+    oracle_wlcc_masks(rng, max(n // 2, 8), R)
     oracle_mi(rng, max(n // 4, 4), R)
     oracle_modules(rng, max(n // 2, 8), R)
     # keep the first (smallest) failure per key
